@@ -22,7 +22,9 @@ def run(ctx):
     # the memoised empty-query ranking must be a function of the records and the limit (not of the order of adds/searches)
     from . import r_state as RS
     RS.memo_coherence(ctx, "R07.d")
-    return info("R07.a: every comparator handed to a selection (compare_hits, the empty-query closure, the candidate closure) "
+    from . import C20 as _RC20
+    _RC20.api_effects(ctx, "R07.f", which=("add",))
+    return info("R07.f: add_record really adds the record to the addressed store on every call (the registry API is not exercised by the repository's tests). R07.a: every comparator handed to a selection (compare_hits, the empty-query closure, the candidate closure) "
                 "is a lexicographic composition of Ord::cmp on the same integer/char projection of both arguments, hence a "
                 "total pre-order; R07.b: Record.ix / Store.next_ix are not read on the ranking path and a Hit copies only id, "
                 "title, rating; R07.c: the rating is a component of the compared vector and every slot is written once; shared "
